@@ -148,6 +148,29 @@ def check_decoder(res, ctx, rng, name):
                               f'{render.call_part(t3) if t3 else None!r} when only the END record / unrelated nested records '
                               f'changed', dict(case, end2=e2, junk=[list(map(str, j)) for j in junk]))
                 return
+        # (3b) words of another event never show: an unfinished START of the same call on the same thread (its END was
+        # lost) and a complete call of the same code on another thread precede the real pair
+        stale = replace_word(rng, name, replace_word(rng, name, start, 0), 2)
+        other = replace_word(rng, name, replace_word(rng, name, start, 1), 3)
+        items = [(6, H.A(name, H.START, stale)), (7, H.A(name, H.START, other))]
+        items += H.on_thread(6, H.syscall(name, start, end, [a for j, p in enumerate(lookups) for a in H.lookup(0x40 + j, p)]))
+        items += [(7, H.A(name, H.END, end))]
+        try:
+            parser = ev.new_parser()
+            t4 = None
+            for e in H.materialize(items):
+                t = parser.feed(e)
+                if t is not None and t.ktraces[0].tid == 6 and t.ktraces[0].eventid == ev.eid(name):
+                    t4 = str(t)
+        except Exception as x:
+            res.violation(f'c09-raises-{core.exc_name(x)}', f'{name}: {x!r} after an unfinished START', case)
+            return
+        res.count('stale_start_variants')
+        if t4 != text0:
+            res.violation('c09-words-of-another-event', f'{name}: after an unfinished START of the same call (words '
+                          f'{[hex(w) for w in stale]}) the completed call renders {t4!r}, a clean pair renders {text0!r}',
+                          dict(case, stale=stale))
+            return
         # (4) quoted parameters come from the lookups, never from words
         for k, tok in enumerate(tokens0):
             if tok.startswith('"') and tok.endswith('"') and tok != '""':
